@@ -7,9 +7,9 @@ CONSTANTS
   MaxBatch = 2
   Sub = 1
   MaxEvents = 3
-  MaxNow = 2
-  MaxFaults = 2
-  Behaviours = {"ok", "evErr", "short", "undec", "e500", "r429_1", "r503_2", "r429_0", "r429_60", "timeout"}
+  MaxNow = 1
+  MaxFaults = 1
+  Behaviours = {"ok", "ok_m", "evErr", "evErr_m", "short", "short_m", "undec", "undec_m", "e400", "e401", "e500", "r429_1", "r503_1", "r503_2", "r429_none", "r429_date", "r429_junk", "r429_0", "r429_past", "r429_60", "timeout"}
   Coarse = TRUE
   Loose = FALSE
 INVARIANTS TypeOK OwnDestination ExactlyOneBatch OversizeCounted BodyWithinLimit CountWithinLimit AtMostTwice Timely StopFlushes GaugeExact Conservation
